@@ -3,7 +3,7 @@ import numpy as np
 
 from .. import gen, install, loops
 from ..common import EPS, LINKAGES, pick, shard_count
-from . import c18
+from . import c11, c18
 
 LD = np.longdouble
 
@@ -75,9 +75,20 @@ def score_model(pts, cluster, mode):
     return np.array(fits) * wts, well
 
 
-def _clusters(mods, pts, knees, linkage, t):
-    f = install.orig('clustering', linkage.__name__ if callable(linkage) else linkage)
-    return np.asarray(f(pts[knees], t))
+def _clusters(mods, pts, knees, linkage, t, ctx=None):
+    name = linkage.__name__ if callable(linkage) else linkage
+    f = install.orig('clustering', name)
+    sub = pts[knees]
+    lab = f(sub, t)
+    if ctx is not None and c11._domain(sub, t) is None and name in c11_names():
+        # the shared clustering primitive against its stated threshold rule (C11's decision monitor)
+        if c11.labels_ok(ctx, name, len(sub), lab, t):
+            c11.check_decisions(ctx, name, np.asarray(sub), t, lab)
+    return np.asarray(lab)
+
+
+def c11_names():
+    return ('single_linkage', 'complete_linkage', 'centroid_linkage', 'average_linkage')
 
 
 def setup(ctx, mods):
@@ -97,7 +108,7 @@ def setup(ctx, mods):
             ctx.ood('one-per-cluster', 'knees-not-interior-ascending')
             return
         res = np.asarray(result)
-        labels = _clusters(mods, pts, knees, a['clustering'], t)
+        labels = _clusters(mods, pts, knees, a['clustering'], t, ctx)
         kset = set(knees.tolist())
         sub = res.ndim == 1 and all(int(v) in kset for v in res) and bool(np.all(np.diff(res) > 0))
         if not ctx.check(sub, 'subset', f'filter:subset:{mode}',
@@ -167,7 +178,7 @@ def setup(ctx, mods):
             ctx.ood('corners', 'knees-not-interior-ascending')
             return
         res = np.asarray(result)
-        labels = _clusters(mods, pts, knees, a['clustering'], t)
+        labels = _clusters(mods, pts, knees, a['clustering'], t, ctx)
         members = {int(c): knees[labels == c] for c in np.unique(labels)}
         okshape = res.ndim == 1 and len(res) == len(members) and bool(np.all(np.diff(res) > 0))
         if not ctx.check(okshape, 'corners', 'corners:one-per-cluster',
